@@ -367,6 +367,47 @@ func (c *Ctx) regexCallOf(fn *ssa.Function, mf *markerFacts) regexCall {
 	return rc
 }
 
+// delegatesToSibling: fn is conv(sibling(conv(receiver))) with conv the
+// ToBytes/ToString methods of the redactable types (or plain conversions).
+func (c *Ctx) delegatesToSibling(fn *ssa.Function, role string, isSibling func(*ssa.Function) bool) string {
+	calls, straight := callsInOrder(fn)
+	if !straight || len(fn.Params) == 0 {
+		return ""
+	}
+	cur := ssa.Value(fn.Params[0])
+	sib := ""
+	for _, ci := range calls {
+		call, ok := ci.(*ssa.Call)
+		if !ok {
+			return ""
+		}
+		g := call.Common().StaticCallee()
+		if g == nil || len(call.Common().Args) != 1 || stripConvAll(call.Common().Args[0]) != stripConvAll(cur) {
+			return ""
+		}
+		switch {
+		case isSibling(g) && sib == "":
+			sib = shortFn(g.String())
+		case pkgPathOf(g) == pkgMarkers && (g.Name() == "ToBytes" || g.Name() == "ToString"):
+		default:
+			return ""
+		}
+		cur = call
+	}
+	if sib == "" {
+		return ""
+	}
+	// the result of the chain is what is returned
+	for _, b := range fn.Blocks {
+		if ret, ok := b.Instrs[len(b.Instrs)-1].(*ssa.Return); ok {
+			if len(ret.Results) != 1 || stripConvAll(ret.Results[0]) != stripConvAll(cur) {
+				return ""
+			}
+		}
+	}
+	return sib
+}
+
 func ruleC07(c *Ctx) []*report.Result {
 	r := report.NewResult("C07", "the two marker patterns, obtained by constant folding, are decided as regular languages: the envelope pattern equals start·(Σ∖{start,end})*·end and is prefix-free, the marker pattern equals {start,end}; the replacements are the constants that make Redact/StripMarkers/EscapeMarkers exact and idempotent; string and []byte variants agree; ToBytes/ToString are pure conversions", 20)
 	mf := c.markerFacts(r)
@@ -406,6 +447,22 @@ func ruleC07(c *Ctx) []*report.Result {
 		}
 		rc := c.regexCallOf(fn, mf)
 		fpos := c.P.Pos(fn.Pos())
+		if rc.calls == 0 {
+			// delegation to the sibling variant: convert, call the other
+			// variant of the same role (which makes the replacement itself),
+			// convert back; the conversions are checked below as such
+			if sib := c.delegatesToSibling(fn, a.role, func(g *ssa.Function) bool {
+				for _, b := range apis {
+					if b.role == a.role && b.name != a.name && c.P.Func("internal/markers", b.name) == g {
+						return c.regexCallOf(g, mf).calls == 1
+					}
+				}
+				return false
+			}); sib != "" {
+				r.Ok(construct + " delegates to " + sib + " between pure conversions")
+				continue
+			}
+		}
 		if rc.calls != 1 || len(rc.other) != 0 {
 			r.Fail(construct+" / body", fpos, fmt.Sprintf("body must be exactly one regexp replacement call (found %d regexp calls, other calls: %v)", rc.calls, rc.other), nil, "")
 			continue
